@@ -33,6 +33,7 @@ SPECIAL_TITLES = [
     "C++", "#1", "100%", "\"Heroes\"", "C++ C#", "$5 100%", "'n' \"roll\"", "C++ and C#", "#1 best seller", "100% cotton", "\"Heroes\" of might", "$5 off 100%", "it's a 'quoted' word", "+plus+ -minus-",
     "Mississippi to Tennessee", "assesses 10000 bananas", "aaaa bbbb", "abababab cdcdcd", "1111 2222 3333", "xxxxx", "zzz zz z",
     "a b c d", "x y", "q", "counterrevolutionaries unite", "donaudampfschifffahrtsgesellschaft", "pneumonoultramicroscopicsilicovolcanoconiosis",
+    "ftp server", "html css xml", "bbq grill", "tv dvd hdmi", "xl xxl", "rhythm myths", "psst shh",
     "Rock'n'roll vinyl", "Men's leather belt", "50's diner", "a+b=c", "AC/DC tribute", "o'clock", "l'été d'avant", "x_y_z",
     "t-shirt xl", "wi-fi router", "e-mail", "micro biology", "night light", "power-bank usb", "3d printer 4k", "usb2 hub", "no.5 chanel",
     "500ml bottle 12v 1kg", "Größe XL", "Süße Grüße", "Élégant cœur", "Bäckerstraße 5",
@@ -359,9 +360,12 @@ def random_query(lang, rnd, titles, toks):
     w = rnd.choice(ws)
     if r < 0.35:
         return text(w[:rnd.randint(1, len(w))])
-    if r < 0.5:
+    if r < 0.42:
         es = edits_of(w, script_letters(lang), rnd, 1)
         return text(rnd.choice(es)[1]) if es else text(w)
+    if r < 0.5:
+        # an extra letter typed in front, or the first letter missing
+        return rnd.choice(script_letters(lang)) + text(w) if rnd.random() < 0.6 else text(w[1:]) or text(w)
     if r < 0.7:
         k = rnd.randint(1, min(3, len(ws)))
         sel = rnd.sample(ws, k)
@@ -459,7 +463,18 @@ def gen_histories(prop, lang, rnd, titles, toks, ncases, length=14, adversarial=
                 nid += 1
             elif r < 0.37:
                 c.op(op="clear", sid=sid)
+                gone = [h[0] for h in held][-6:]
                 held = []
+                # a smaller catalogue arrives, and the user still asks for what used to be there
+                for _k in range(rnd.randint(1, 2)):
+                    t = rnd.choice(titles)
+                    c.add(sid, nid, t, rnd.randint(0, 3) if small_ratings else rnd.randint(0, 2 ** 31 - 1))
+                    held.append((t, nid))
+                    nid += 1
+                for t in gone[:3]:
+                    ws_ = t.split()
+                    if ws_:
+                        c.search(sid, rnd.choice(ws_), want=["qtok", "fresh"], repeat=2)
             elif r < 0.5:
                 lim = rnd.choice([0, 1, 1, 2, 2, 3, len(held), len(held) + 1, len(held) + 2, 10, 10, 65536 if adversarial else 20])
                 c.op(op="limit", sid=sid, limit=lim)
@@ -1064,6 +1079,10 @@ def gen_registry_cases(rnd, ncases, pools, toks, length=30):
                     c.op(op="r_search", id=i, q=cps(w0))
                 c.op(op="r_limit", id=i, limit=lim)
                 c.op(op="limit", sid=1000 + i, limit=lim)
+                if lim != 0 and L.get("lastq") is not None and rnd.random() < 0.6:
+                    q = L["lastq"]                                       # the same input again under the new limit
+                    c.search(1000 + i, q, tag="sa%d" % i, want=["qtok", "fresh"], rep=1)
+                    c.op(op="r_search", id=i, q=cps(q))
                 if lim == 0 or rnd.random() < 0.2:
                     q = rnd.choice(["zzqq", "xyxy", "qj", "0000"])      # nothing in common with any title
                     c.search(1000 + i, q, tag="sa%d" % i, want=["qtok", "fresh"])
@@ -1169,6 +1188,25 @@ def gen_table_store_cases(lang, rnd, prop="C02"):
         for q in qs:
             c.search(sid, q, alt=[dict(l=cps("<"), r=cps(">"))])
         c.search(sid, "")
+        if prop == "C11":
+            # every table entry as a query variant: the letter itself against its decomposed / folded / other-case spelling
+            decomp = {b[0]: a for a, b in tab["compose"]}
+            fold = {a[0]: b for a, b in tab["reduce"]}
+            for j, (a, b) in enumerate(items[k:k + 6]):
+                ch = b[0] if len(b) == 1 and len(a) == 2 else a[0]
+                base = cps("ta") + [ch]
+                tag = "tb%d" % j
+                c.search(sid, base, tag=tag)
+                variants = []
+                if ch in decomp:
+                    variants.append(("d", decomp[ch]))
+                if ch in fold:
+                    variants.append(("f", fold[ch]))
+                oc = chr(ch).swapcase()
+                if len(oc) == 1 and oc != chr(ch) and oc.swapcase() == chr(ch):
+                    variants.append(("c", [ord(oc)]))
+                for op, rep in variants:
+                    c.search(sid, cps("ta") + rep, expect=dict(prop="C11", kind="variant", tag=tag, base=base, ops=["k", "k", op], prefix=[]))
         cases.append(c)
     return cases
 
